@@ -17,6 +17,10 @@ CHECKS = {
  'C04': dict(sec='3/C04', tech='TLC step machine with an explicit index buffer (Unwritten slots) + replay into stratified_subsampling / the estimator in poisoned child processes; MISampleTrace',
              text='The sampling machine (Enter/WritePrefix*/Gather) is model-checked for NoUninitialisedRead, SampleIsPrefixes and SampleOnly; every state is replayed: the real sample must equal the specified one, scores must be finite and identical over repetitions, processes and heap-poison patterns, and unchanged when Y is altered outside the sample.',
              note='uninitialised memory is provoked by poisoning freed allocations, not enumerated; r is the float32 ratio the estimator receives'),
+
+ 'C10': dict(sec='3/C10', tech='TLC enumeration of Interactions.tla (frames over a concatenation-adversarial alphabet, sampler with persistent counter) + replay into the real compute_combined_features',
+             text='Interactions.tla specifies the interaction feature by its kernel (equal iff all constituents equal), its name, the candidate space and the least-evaluated-first selection; TLC enumerates every frame of a bounded space and each state (two consecutive batches) is replayed into the real function: partitions, names, selection, untouched originals and score equality with the explicit tuple are compared; the KeyByConcatenation deviation shows the model separates aliasing keys.',
+             note='bounded frames (<=4 feature columns, <=3 rows, alphabet "", "1", "11", "a", "1a" under several character maps); 64-bit collisions out of reach'),
 }
 
 checks = []
